@@ -62,7 +62,7 @@ def run(tier="quick"):
                      ("P4", "only out-of-range positions are refused"), ("P5", "index/to_array positions"),
                      ("D1", "chain pointers dereferenced only inside the chain"), ("D2", "no dispatch through a NULL placeholder"),
                      ("L2", "unlink updates pred/succ/head/tail independently"),
-                     ("L3", "created node linked forwards and backwards"), ("L4", "reverse updates head and tail"),
+                     ("L3", "created node linked forwards and backwards"), ("L4", "reverse updates head and tail"), ("L7", "every node of a doubly linked copy is back-linked"),
                      ("L5", "len follows every insertion and removal"), ("I1", "iterator starts at the first element"),
                      ("I2", "next() yields the element under the cursor and steps once"), ("I3", "has_next() exact"),
                      ("B1", "array storage bounds and len/items invariant"), ("U1", "no uninitialised local")):
@@ -82,6 +82,8 @@ def run(tier="quick"):
     nins = LR.check_insert_effects(chk, prog, "dlinked_list.c", True, only=names) + LR.check_insert_effects(chk, prog, "linked_list.c", False, only=names)
     nrev = sum(LR.check_reverse(chk, prog, u, u == "dlinked_list.c") for u in ("linked_list.c", "dlinked_list.c"))
     nlen = sum(LR.check_len_on_remove(chk, prog, u, only=names) for u in ("linked_list.c", "dlinked_list.c"))
+    nbl = LR.check_dup_backlinks(chk, prog, only={f.name for f in LR.iface_functions(prog, "list", with_parent=True)})
+    chk.count("dlinked_dup_functions", nbl, floor=1)
     nit = LR.check_iterators(chk, prog)
     nf, nund, samples = cap_array(chk, prog, fns)
     init_diag(chk, prog, UNITS, only=names)
